@@ -203,6 +203,13 @@ pub fn run(ctx: &Ctx) -> i32 {
             add(format!("{}-stale-old-count-{}", bn, tag), &f);
         }
     }
+    // the header's flag word cleared / all ones (a reader might treat such files as "legacy" ones)
+    for (tag, fl) in [("0", 0u32), ("ffffffff", 0xFFFF_FFFF), ("2", 2)] {
+        for (bn, mut f) in [("b1", gen::b1()), ("b2", gen::b2()), ("d1i", gen::d1(&Fmt::Indexed(4)))] {
+            f.header.flags = fl;
+            add(format!("{}-header-flags-{}", bn, tag), &f);
+        }
+    }
     // frames without chunks: a bare 16-byte frame header as the last thing in the file
     {
         let mut f = gen::b1();
@@ -267,7 +274,7 @@ pub fn run(ctx: &Ctx) -> i32 {
         return 2;
     }
     let total: usize = files.iter().map(|(n, _, e, sp)| if n.starts_with("sized-") { (0..*e).filter(|k| sparse_cut(*k, *e, sp)).count() } else if n == "big" && !thorough { (0..*e).filter(|k| k % 257 == 0 || k % 4096 < 24 || k % 4096 >= 4072 || sp.iter().any(|(a, b)| k.abs_diff(*a) < 24 || k.abs_diff(*b) < 24)).count() } else { *e }).sum();
-    ctx.family("prefixes", total as u64, &format!("every strict prefix bytes[..k], 0 <= k < end of last frame, of {} files: b1..b4, D1 in three formats, one file per chunk kind with that chunk last and one with a cel chunk after it, 2- and 3-frame files whose last chunk is a 5..80 KB raw / zlib / stored-zlib / tilemap cel, user-data text, palette, tileset, slice or tags chunk that an earlier frame holds too, 3-frame files of exactly 64 KiB, 1 MiB and 2 MiB (+128, +128+16k) bytes with structured cuts, b1 with trailing bytes / both count styles / a tail, b1 and b2 with a stale (smaller) deprecated 16-bit chunk count beside the 32-bit one, and the corpus files up to 8 KB, plus `big` (every chunk > 64 KiB; quick: cuts near chunk / 4 KiB boundaries and every 257th offset, thorough: every offset){}", files.len(), if thorough { " plus one 525 KB corpus file at every offset" } else { "" }), true);
+    ctx.family("prefixes", total as u64, &format!("every strict prefix bytes[..k], 0 <= k < end of last frame, of {} files: b1..b4, D1 in three formats, one file per chunk kind with that chunk last and one with a cel chunk after it, 2- and 3-frame files whose last chunk is a 5..80 KB raw / zlib / stored-zlib / tilemap cel, user-data text, palette, tileset, slice or tags chunk that an earlier frame holds too, 3-frame files of exactly 64 KiB, 1 MiB and 2 MiB (+128, +128+16k) bytes with structured cuts, b1, b2 and D1 with the header flag word 0 / 2 / all ones, b1 with trailing bytes / both count styles / a tail, b1 and b2 with a stale (smaller) deprecated 16-bit chunk count beside the 32-bit one, and the corpus files up to 8 KB, plus `big` (every chunk > 64 KiB; quick: cuts near chunk / 4 KiB boundaries and every 257th offset, thorough: every offset){}", files.len(), if thorough { " plus one 525 KB corpus file at every offset" } else { "" }), true);
     for (name, bytes, end, spans) in &files {
         // `big` (400 KB) in the quick tier: every cut within 24 bytes of a chunk boundary, of a
         // 4 KiB / 64 KiB multiple, and every 257th offset; all offsets in the thorough tier
